@@ -36,7 +36,7 @@ def struct(rng, *, allow_local=True, allow_epoch=True, maxrel=4):
 def neighbour(rng, v):
     """a version close to ``v`` in the order (one component nudged / added / removed)"""
     w = {k: (list(x) if isinstance(x, list) else x) for k, x in v.items()}
-    k = rng.randrange(9)
+    k = rng.randrange(11)
     if k == 0:
         w["epoch"] = max(0, w["epoch"] + rng.choice([-1, 1]))
     elif k == 1:
@@ -59,6 +59,18 @@ def neighbour(rng, v):
             w["local"] = None
         else:
             w["local"] = w["local"] + [rng.choice([rng.choice(LOCAL_ALPHA), rng.choice(SMALL)])]
+    elif k >= 8:
+        # change one local segment in place: other type, nudged value, or changed case-insensitive text
+        if w["local"] is None:
+            w["local"] = [rng.choice([0, 0, 1, "a", "b"])]
+        else:
+            i = rng.randrange(len(w["local"]))
+            x = w["local"][i]
+            if isinstance(x, int):
+                w["local"][i] = rng.choice([rng.choice(LOCAL_ALPHA), max(0, x + rng.choice([-1, 1])), 0])
+            else:
+                short = x[:-1] if (x[:-1] and not x[:-1].isdigit()) else "a"
+                w["local"][i] = rng.choice([0, 0, 1, 10, rng.choice(LOCAL_ALPHA), x + "a", short])
     return w
 
 
